@@ -33,7 +33,7 @@ func setup() {
 		symbols.SerializeTableAccess = false
 
 		builtins.AddBuiltins(&symbols.RootSymbolTable)
-		symbols.RootSymbolTable.SetAlways(defs.ExtensionsVariable, settings.GetBool(defs.ExtensionsEnabledSetting))
+		symbols.RootSymbolTable.SetAlways(defs.ExtensionsVariable, false)
 	})
 }
 
@@ -165,13 +165,14 @@ type Finding struct {
 
 // Res is the judgement of one text.
 type Res struct {
-	ID       int       `json:"id"`
-	Accepted bool      `json:"accepted"`
-	Reject   string    `json:"reject,omitempty"`
-	Changed  bool      `json:"changed"` // the formatter changed the text
-	Runs     int       `json:"runs"`
-	Findings []Finding `json:"findings,omitempty"`
-	Died     string    `json:"died,omitempty"` // the worker did not survive this text (phase)
+	ID         int       `json:"id"`
+	Accepted   bool      `json:"accepted"`
+	Reject     string    `json:"reject,omitempty"`
+	Changed    bool      `json:"changed"` // the formatter changed the text
+	Runs       int       `json:"runs"`
+	SameTokens bool      `json:"same_tokens,omitempty"`
+	Findings   []Finding `json:"findings,omitempty"`
+	Died       string    `json:"died,omitempty"` // the worker did not survive this text (phase)
 }
 
 func clip(s string, n int) string {
@@ -244,8 +245,12 @@ func judge(j Job) Res {
 				Detail: fmt.Sprintf("%d comment(s) of the original are not comments of the output: %s", len(lost), clip(strings.Join(lost, " | "), 200))})
 		}
 
-		// behaviour
-		if f1 != j.Src {
+		// behaviour: the compiler reads the token stream only; when the formatted
+		// text has the same tokens (white space and line breaks apart) it is the
+		// same program
+		if f1 != j.Src && sameTokens(j.Src, f1) {
+			res.SameTokens = true
+		} else if f1 != j.Src {
 			phase.Store("run-formatted")
 
 			got := runText(f1, j.Frag)
@@ -265,6 +270,23 @@ func judge(j Job) Res {
 	phase.Store("idle")
 
 	return res
+}
+
+// sameTokens reports whether two texts give ego's tokenizer the same token
+// sequence (class and spelling; positions ignored).
+func sameTokens(a, b string) bool {
+	ta, tb := tokenizer.New(a, true), tokenizer.New(b, true)
+	if len(ta.Tokens) != len(tb.Tokens) {
+		return false
+	}
+
+	for i := range ta.Tokens {
+		if ta.Tokens[i].Spelling() != tb.Tokens[i].Spelling() || ta.Tokens[i].Class() != tb.Tokens[i].Class() {
+			return false
+		}
+	}
+
+	return true
 }
 
 func firstDiff(a, b string) string {
